@@ -150,6 +150,118 @@ fn real_lib(list: &[Entry], columns: &[usize]) -> Result<RefArray, String> {
     run_reader(&mut reader).map(|c| c.spectrum)
 }
 
+fn samples_of(list: &[Entry]) -> Vec<(Sample, Population)> {
+    list.iter().map(|(s, l)| (Sample::from(format!("s{s}")), if *l == 0 { Population::Unnamed } else { Population::from(Some(LABELS[*l])) })).collect()
+}
+
+/// Setter histories of the site reader builder: `set_samples` called once, twice (with another list,
+/// with `None`) - the last call decides; an empty list is an error, from a list as from a file.
+fn check_builder_histories() -> (u64, Vec<Viol>) {
+    let lists: Vec<Vec<Entry>> = vec![vec![(0, 1), (1, 2)], vec![(2, 0), (0, 0), (1, 3)], vec![(1, 1)], vec![(2, 2), (1, 2), (0, 1)]];
+    let mut viols = Vec::new();
+    let mut n = 0u64;
+    let build = |settings: &[Option<&Vec<Entry>>]| -> Result<RefArray, String> {
+        let mut b = site::reader::Builder::default();
+        for s in settings {
+            b = b.set_samples(s.map(|l| Samples::List(samples_of(l))));
+        }
+        let names: Vec<String> = (0..3).map(|s| format!("s{s}")).collect();
+        let mut reader = b.build(Box::new(MemReader::with_names(&names, rows_for(&[0, 1, 2])))).map_err(|e| e.to_string())?;
+        run_reader(&mut reader).map(|c| c.spectrum)
+    };
+    let all_unnamed: Vec<Entry> = vec![(0, 0), (1, 0), (2, 0)];
+    let mut choices: Vec<Option<&Vec<Entry>>> = lists.iter().map(Some).collect();
+    choices.push(None);
+    for a in &choices {
+        for b in &choices {
+            for c in [None, Some(&choices[0]), Some(&choices[4])] {
+                n += 1;
+                let mut settings = vec![*a, *b];
+                if let Some(c) = c {
+                    settings.push(*c);
+                }
+                let last = settings.last().unwrap().unwrap_or(&all_unnamed);
+                let expect = reference(last);
+                let got = crate::verdict::catch(|| build(&settings));
+                if !matches!(&got, Ok(Ok(g)) if *g == expect) {
+                    viols.push((
+                        "C09|lib|builder-history".to_string(),
+                        format!("set_samples called with {:?} in turn: {got:?}, the last call asks for {:?} {:?}", settings.iter().map(|s| s.map(|l| list_str(l))).collect::<Vec<_>>(), expect.shape, expect.data),
+                        J::obj([("kind", J::s("c09-builder"))]),
+                    ));
+                }
+            }
+        }
+    }
+    // an empty list is an error - as a list, and after an earlier non-empty one
+    for earlier in [None, Some(&lists[0])] {
+        n += 1;
+        let mut b = site::reader::Builder::default();
+        if let Some(l) = earlier {
+            b = b.set_samples(Some(Samples::List(samples_of(l))));
+        }
+        b = b.set_samples(Some(Samples::List(Vec::new())));
+        let names: Vec<String> = (0..3).map(|s| format!("s{s}")).collect();
+        let r = crate::verdict::catch(|| b.build(Box::new(MemReader::with_names(&names, rows_for(&[0, 1, 2])))).map(|_| ()).map_err(|e| e.to_string()));
+        if !matches!(r, Ok(Err(_))) {
+            viols.push(("C09|lib|empty-list-accepted".to_string(), format!("a site reader built from an empty sample list (after {:?}): {r:?}, expected an error", earlier.map(|l| list_str(l))), J::obj([("kind", J::s("c09-builder"))])));
+        }
+    }
+    (n, viols)
+}
+
+/// `sample::Map::from_reader` on streams that fail or turn out not to be text part-way, under several
+/// chunkings: an error, or the complete list - never a shorter list.
+pub(super) fn check_map_from_reader() -> (u64, Vec<Viol>) {
+    use crate::seam::{ChunkedReader, Schedule};
+    use sfs_core::input::sample::Map;
+    use std::sync::Arc;
+    let text = "s0\tA\ns1\tB\ns2\tA\ns3\ns4\tB\n";
+    let full: Vec<String> = vec!["s0", "s1", "s2", "s3", "s4"].into_iter().map(String::from).collect();
+    let names = |m: &Map| -> Vec<String> { m.samples().map(|s| s.as_ref().to_string()).collect() };
+    let mut viols = Vec::new();
+    let mut n = 0u64;
+    let bytes = Arc::new(text.as_bytes().to_vec());
+    for k in [0usize, 1, 2, 3, 5, 7, 64] {
+        // complete stream in chunks of k bytes (0 = one piece)
+        n += 1;
+        let sched = if k == 0 { Schedule::whole() } else { Schedule::periodic(k) };
+        let (r, _) = ChunkedReader::new(bytes.clone(), sched);
+        match crate::verdict::catch(|| Map::from_reader(r).map(|m| (names(&m), m.number_of_populations()))) {
+            Ok(Ok((got, pops))) if got == full && pops == 3 => {}
+            other => viols.push(("C09|lib|map-from-reader|chunked".to_string(), format!("the samples stream in chunks of {k} bytes: {other:?}, expected the five samples in three populations"), J::obj([("kind", J::s("c09-map")), ("chunk", J::u(k))]))),
+        }
+        // the stream fails at every offset
+        for at in 0..text.len() {
+            n += 1;
+            let sched = (if k == 0 { Schedule::whole() } else { Schedule::periodic(k) }).with_fault(at);
+            let (r, _) = ChunkedReader::new(bytes.clone(), sched);
+            match crate::verdict::catch(|| Map::from_reader(r).map(|m| names(&m))) {
+                Ok(Err(_)) => {}
+                Ok(Ok(got)) if got == full => {}
+                other => {
+                    if viols.len() < 6 {
+                        viols.push(("C09|lib|map-from-reader|failing-stream".to_string(), format!("the samples stream (chunks of {k}) failing at byte {at}: {other:?}, expected an error (or the complete list)"), J::obj([("kind", J::s("c09-map")), ("chunk", J::u(k)), ("fault_at", J::u(at))])));
+                    }
+                }
+            }
+        }
+    }
+    // a line that is not UTF-8, at every line position
+    for line in 0..5usize {
+        n += 1;
+        let mut lines: Vec<Vec<u8>> = text.lines().map(|l| l.as_bytes().to_vec()).collect();
+        lines[line] = vec![b's', 0xe9, b'\t', b'A'];
+        let mut data = lines.join(&b'\n');
+        data.push(b'\n');
+        match crate::verdict::catch(|| Map::from_reader(&data[..]).map(|m| names(&m))) {
+            Ok(Err(_)) => {}
+            other => viols.push(("C09|lib|map-from-reader|not-utf8".to_string(), format!("a samples stream whose line {line} is not UTF-8: {other:?}, expected an error"), J::obj([("kind", J::s("c09-map")), ("bad_line", J::u(line))]))),
+        }
+    }
+    (n, viols)
+}
+
 fn nontrivial(list: &[Entry]) -> bool {
     let mut order: Vec<usize> = Vec::new();
     for (_, l) in list {
@@ -711,6 +823,22 @@ pub fn run(tier: Tier) -> i32 {
             evaluations: sub.len() as u64,
             nontrivial: sub.len() as u64,
             note: "every list of <=2 of 3 samples while the unlisted columns carry haploid and triploid genotypes: only listed samples count".into(),
+            exhaustive: true,
+            extra: vec![],
+        });
+    }
+    // the builder and the sample map as a library user drives them
+    {
+        let (n1, v1) = check_builder_histories();
+        let (n2, v2) = check_map_from_reader();
+        for (k, w, j) in v1.into_iter().chain(v2) {
+            rep.violation(k, w, j);
+        }
+        rep.part(Part {
+            name: "lib: builder setter histories; sample map from failing streams".into(),
+            evaluations: n1 + n2,
+            nontrivial: n1 + n2,
+            note: "set_samples called two and three times with four lists and None in every order (the last call decides), an empty list alone and after a non-empty one (an error); sample::Map::from_reader on a five-line stream in chunks of 1, 2, 3, 5, 7, 64 bytes and in one piece, failing at every byte offset under each chunking, and with each line in turn not UTF-8: the complete list or an error, never a shorter list".into(),
             exhaustive: true,
             extra: vec![],
         });
